@@ -388,7 +388,19 @@ def opVTrain (c : ToyCfg) (ckSteps : Nat) (procs extra initTheta chain tbl : Lis
             let (n, m) := crashPoint (opsOf r.saveTbl 0 [[0, 0, 0, 0]]) p.toNat
             .crashInSave j.toNat n m
           | _ => .finish
-        match vprocessT initTbl r v ⟨res == 1, ini == 1, swv == 1⟩ file stop d with
+        -- kind 5: the process dies outside the kill path at statement boundary `p` of iteration `j`:
+        -- 2 / 3 before / after `optimizer.step()`, 4 / 5 before / after `lr_scheduler.step()`, 6 at the entry of the
+        -- periodic save, 7 inside `write_to_logs`
+        let die : Option Die := if kind == 5 then
+            some (match p with
+              | 2 => ⟨j.toNat, 3, 0⟩
+              | 3 => ⟨j.toNat, 4, 0⟩
+              | 4 => ⟨j.toNat, 6, 0⟩
+              | 5 => ⟨j.toNat, 7, 0⟩
+              | 6 => ⟨j.toNat, 7, 1⟩
+              | _ => ⟨j.toNat, 7, 2⟩)
+          else none
+        match vprocessT initTbl r v ⟨res == 1, ini == 1, swv == 1⟩ file stop d die with
         | none => "err LoadFailed"
         | some (plan, s, d', ev) =>
           let done := ev.filter (fun e => match e with | .iter _ => true | _ => false) |>.length
@@ -419,6 +431,15 @@ def opLrState (hdr rats ms ctl : List Int) : String :=
       let fin := Lr.steps f x more.toNat
       okG [[fin.2.lastEpoch, (fin.2.stepCount : Int)], ratG fin.2.baseLr ++ ratG fin.1.initialLr, seq.flatMap ratG]
   | _, _, _ => "err BadOp"
+
+/-- `exc | (it sid size)* complete previous saves | it sid size | chunk sizes | n m | table codes | unwindFrom per statement (-1 = none)`:
+the write that is operation `n` of the save raises after `m` bytes; Python unwinds; then `load('latest')` -/
+def opExc (prev : List (Int × Nat × Nat)) (new : Int × Nat × Nat) (sizes : List Int) (n m : Nat) (t : List Stmt)
+    (unw : List Int) : String :=
+  let d := prev.foldl (fun d (it, sid, size) => run d (opsOf t it [toyEncode sid size])) Dir.empty
+  let xt : List XStmt := (t.zip unw).map fun (st, u) => ⟨st, if u < 0 then none else some u.toNat⟩
+  let (it, sid, size) := new
+  fmtLoad (loadLatest toyDecode (run d (excOps xt it (chunk (toyEncode sid size) (sizes.map Int.toNat)) n m)))
 
 def step (op : String) (gs : List (List Int)) : String :=
   match op, gs with
@@ -453,6 +474,11 @@ def step (op : String) (gs : List (List Int)) : String :=
   | "train", [hdr, mu, sched, ms, xs, ys, w0, stops, tbl] =>
     match parseToy hdr mu sched ms xs ys w0, tableOf false tbl with
     | some c, some t => opTrain c (hdr.getD 4 1).toNat (hdr.getD 5 0 == 1) t stops
+    | _, _ => "err BadOp"
+  | "exc", [prev, [it, sid, size], sizes, [n, m], tbl, unw] =>
+    match triples prev, tableOf false tbl with
+    | some pv, some t =>
+      if unw.length ≠ t.length then "err BadOp" else opExc pv (it, sid.toNat, size.toNat) sizes n.toNat m.toNat t unw
     | _, _ => "err BadOp"
   | "loadreq", [aliases, last, files, [kind, n]] =>
     match quads files with
